@@ -264,7 +264,9 @@ fn generate(seed: u64, n_cases: usize, tier: &str) {
         let n = if rng.chance(70) { 1 } else { 2 };
         out.line(format!("init {n}"));
         let grid = Grid::new(&mut rng, if thorough { 12 } else { 8 });
-        let max_levels = if thorough { 16 } else { 12 };
+        // level lists longer than 20 matter: above that size an UNSTABLE sort may reorder equal prices (fixed in
+        // /repo 911b9f8: stable sort), so a fifth of the cases use long lists (duplicates of a price included)
+        let max_levels = if rng.chance(20) { 60 } else if thorough { 16 } else { 12 };
         let zero_pct = *rng.pick(&[10u64, 30, 30, 60]);
         let len = rng.range(1, 40);
         let mut seq: u64 = rng.range(0, 1000) as u64;
